@@ -7,9 +7,11 @@ package verifh
 import (
 	"crypto/sha256"
 	"crypto/sha512"
+	"encoding/json"
 	"fmt"
 	"io"
 	"math/big"
+	"sync"
 
 	"golang.org/x/crypto/blake2b"
 	"golang.org/x/crypto/sha3"
@@ -286,12 +288,53 @@ func c12Mark(r []byte, s *big.Int) []byte {
 	return out
 }
 
+// The honest part of Build is memoised (a pure function of key, signing
+// input and entropy): one case builds the same entry once per alteration.
+type c12Honest struct {
+	sk  ref.SrSecret
+	pub []byte
+	sig ref.SrSignature
+}
+
+var (
+	c12mu   sync.Mutex
+	c12memo = map[string]c12Honest{}
+)
+
+func (e C12Entry) honest() c12Honest {
+	kb, err := json.Marshal(struct {
+		K C12Key
+		M C12Msg
+		E Hex
+	}{e.Key, e.M, e.Ent.Bytes})
+	if err != nil {
+		panic(err)
+	}
+	key := string(kb)
+	c12mu.Lock()
+	hn, ok := c12memo[key]
+	c12mu.Unlock()
+	if ok {
+		return hn
+	}
+	sk := e.Key.Secret()
+	pub := sk.SrPublicKeyFast()
+	hn = c12Honest{sk: sk, pub: pub, sig: ref.SrSignFast(sk, pub, e.M.Transcript(), e.Ent.Bytes)}
+	c12mu.Lock()
+	if len(c12memo) >= 64 {
+		c12memo = map[string]c12Honest{}
+	}
+	c12memo[key] = hn
+	c12mu.Unlock()
+	return hn
+}
+
 // Build signs the entry with the reference (fixed-base fast path) and
 // applies the alteration.
 func (e C12Entry) Build() C12Built {
-	sk := e.Key.Secret()
-	pub := sk.SrPublicKeyFast()
-	hon := ref.SrSignFast(sk, pub, e.M.Transcript(), e.Ent.Bytes)
+	hn := e.honest()
+	sk, pub, hon := hn.sk, append([]byte(nil), hn.pub...), hn.sig
+	hon.Bytes = append([]byte(nil), hon.Bytes...)
 	b := C12Built{Pub: pub, PubLog: new(big.Int).Set(sk.Key), M: e.M, Sig: append([]byte(nil), hon.Bytes...),
 		Honest: hon, HonestPub: pub, Secret: sk}
 	if e.Mut == nil {
@@ -422,8 +465,8 @@ func c12BadSig(t *rapid.T, label string) []byte {
 }
 
 var c12MutKinds = []string{
-	"ctx-flip", "ctx-append", "ctx-trunc", "ctx-shift", "msg-flip", "msg-append", "msg-trunc", "src", "src-raw",
-	"pk-other", "pk-neg", "pk-add", "sig-flip", "sig-flip", "sig-flip", "sig-unmark", "sig-s+L", "sig-s-add", "sig-R-add", "sig-R-bad",
+	"sig-flip", "ctx-flip", "msg-flip", "pk-other", "src", "sig-s-add", "sig-R-add", "pk-neg", "pk-add", "sig-s+L", "sig-unmark", "sig-R-bad",
+	"ctx-append", "ctx-trunc", "ctx-shift", "msg-append", "msg-trunc", "src-raw",
 }
 
 // C12GenMut draws an alteration; batch selects the kinds that only make
@@ -433,7 +476,8 @@ func C12GenMut(t *rapid.T, label string, objects bool) C12Mut {
 	if objects {
 		kinds = append(append([]string(nil), kinds...), "zero-sig", "zero-pk", "failed-sig", "failed-pk")
 	}
-	m := C12Mut{Kind: rapid.SampledFrom(kinds).Draw(t, label+"_mk")}
+	// an evenly spread choice (rapid's small-value bias would starve the tail of the list)
+	m := C12Mut{Kind: kinds[int(rapid.Uint32().Draw(t, label+"_mk")%uint32(len(kinds)))]}
 	switch m.Kind {
 	case "ctx-flip", "msg-flip":
 		m.N = rapid.IntRange(0, 4095).Draw(t, label+"_bit")
@@ -719,7 +763,7 @@ func C12GenBatchCase(t *rapid.T) C12BatchCase {
 	for i := 0; i < nOps; i++ {
 		k := rapid.IntRange(0, 11).Draw(t, "opk")
 		switch {
-		case k <= 4: // add good
+		case k <= 3 || (k <= 6 && len(bad) == 0 && len(pairs) == 0): // add good
 			n := rapid.SampledFrom(sizes).Draw(t, "n")
 			if size+n > 200 {
 				n = 1
@@ -729,13 +773,13 @@ func C12GenBatchCase(t *rapid.T) C12BatchCase {
 			}
 			size += n
 			c.Ops = append(c.Ops, C12Op{Op: "add", I: rapid.IntRange(0, nGood-1).Draw(t, "i"), N: n})
-		case k == 5 && len(bad) > 0:
+		case (k == 4 || k == 5 || len(pairs) == 0) && k <= 6 && len(bad) > 0:
 			if size+1 > 200 {
 				continue
 			}
 			size++
 			c.Ops = append(c.Ops, C12Op{Op: "add", I: rapid.SampledFrom(bad).Draw(t, "i"), N: 1})
-		case k == 6 && len(pairs) > 0:
+		case k <= 6:
 			if size+2 > 200 {
 				continue
 			}
